@@ -437,7 +437,7 @@ class CallMixin:
             if isinstance(src, dict):
                 return {k: val for k in src}
             raise Unsupported("dict.fromkeys source")
-        if name == "set":
+        if name in ("set", "frozenset"):  # immutability of a frozenset is not modelled (a write to one would be an AttributeError)
             if not args:
                 return PySet(())
             v = self.force(args[0])
@@ -445,6 +445,8 @@ class CallMixin:
                 return EnumSet(v.cls, dict(v.slots))
             if isinstance(v, PySet):
                 return PySet(v.items)
+            if isinstance(v, (tuple, list)):
+                return self.eval_set_items(list(v))
             raise Unsupported("set(...)")
         if name == "tuple":
             if not args:
@@ -465,6 +467,10 @@ class CallMixin:
                     return want
             return not want
         if name == "next":
+            if isinstance(args[0], GenExp):
+                r = self.next_over_symbolic(args[0], args[1] if len(args) > 1 else UNDEF, node)
+                if r is not UNDEF:
+                    return r[0]
             for v in self.lazy_iterate(args[0]):
                 return v
             if len(args) > 1:
